@@ -42,14 +42,18 @@ pub fn generate(prop: &str, seed: u64, idx: u64, tier: Tier) -> Plan {
     }
     // channels
     let nch: u64 = match prop {
-        "C01" => r.range(1, 2),
+        "C01" => r.range(1, 3),
         "C12" => *r.pick(&[1, 2, 3, 4, 8, 16]),
         _ => r.range(1, 3),
     };
     k.insert("nch".into(), nch as i64);
     for i in 0..nch {
         let code = match prop {
-            "C01" => 0,
+            // C01 judges the reliable ordered channels; from the second channel on the association also carries
+            // channels of the other types, whose losses and abandoned messages must not disturb them
+            "C01" => {
+                if i == 0 || r.chance(55) { 0 } else { r.below(6) }
+            }
             "C12" => r.below(6) + if r.chance(45) { 8 } else { 0 } + if r.chance(50) { 16 } else { 0 },
             _ => {
                 if r.chance(70) { 0 } else { r.below(6) }
